@@ -214,6 +214,13 @@ func (c *c17ctx) violate(oracle, class, detail string, f trace.Fault) {
 
 func execC17(t *trace.Trace, dir string) *harness.RunResult {
 	res := &harness.RunResult{Probes: map[string]int{}, Fired: map[string]int{}, Narrow: map[string]*trace.Trace{}}
+	skip, ex := harness.TakeSkipSub(), 0
+	// done reports whether the sub-run about to start was already executed by a
+	// previous worker segment that died in it
+	done := func() bool {
+		ex++
+		return ex <= skip
+	}
 	c := &c17ctx{t: t, res: res, seen: map[string]bool{}}
 	quick := true
 	for _, x := range t.Config.Extra {
@@ -268,6 +275,9 @@ func execC17(t *trace.Trace, dir string) *harness.RunResult {
 					res.Infra = err.Error()
 					return res
 				}
+				if done() {
+					continue
+				}
 				harness.AnnounceFault(trace.Fault{Kind: "truncate", Len: l})
 				d, _ := dumpUnder(work, nil, 0)
 				res.SubRuns++
@@ -298,6 +308,9 @@ func execC17(t *trace.Trace, dir string) *harness.RunResult {
 				}
 			}
 			for _, k := range ks {
+				if done() {
+					continue
+				}
 				harness.AnnounceFault(trace.Fault{Kind: "read_eio", AtStep: k})
 				d, sim := dumpUnder(base, []trace.Fault{{Kind: "read_eio", AtStep: k}}, 0)
 				res.SubRuns++
@@ -374,6 +387,9 @@ func execC17(t *trace.Trace, dir string) *harness.RunResult {
 			ft := wt.Clone()
 			f := trace.Fault{Kind: p.kind, AtStep: p.k, Keep: p.keep}
 			ft.Faults = []trace.Fault{f}
+			if done() {
+				continue
+			}
 			harness.AnnounceFault(f)
 			out := e1.Run(ft, e1.Options{Dir: dir, Property: "C17", NoFinalCheck: true})
 			res.SubRuns++
